@@ -402,6 +402,10 @@ TypeOfRaw(env, ctx, e) ==
       [] e.k \in {"call", "spawn"} ->
             LET ft == Denote(env, ctx, e.f) IN
             IF ft = NIL THEN Fail("UnknownIdent")
+            \* a thread starts in a function definition of the program: not in a function value, a builtin or a host function
+            ELSE IF e.k = "spawn" /\ (Lookup(env, e.f) # NIL \/ e.f \notin DOMAIN ctx.fns) THEN Fail("NotSpawnable")
+            \* and what it returns reaches the thread which joins it
+            ELSE IF e.k = "spawn" /\ ft.k = "fn" /\ ContainsFn(ft.r) THEN Fail("ArgMismatch")
             ELSE LET r == CallWith(env, ctx, ft, e.args, e.k = "spawn") IN
                  r
       [] e.k = "callv" ->
